@@ -160,36 +160,66 @@ func (m *mesh) gossip(from *node, epoch int, b []byte) {
 		if lost {
 			continue
 		}
-		deliver := func(d time.Duration) {
-			time.Sleep(d)
+		go m.deliver(from, to, b, d)
+		if dup {
+			go m.deliver(from, to, b, d+3*time.Second)
+		}
+	}
+}
+
+// deliver hands the notification-log state b of `from` to `to` after d, if both are up and connected.
+func (m *mesh) deliver(from, to *node, b []byte, d time.Duration) {
+	time.Sleep(d)
+	m.mu.Lock()
+	ok := to.up && from.up && m.part[to.name] == m.part[from.name]
+	m.mu.Unlock()
+	if !ok {
+		return
+	}
+	// accepted entries = those newer than what the receiver holds
+	var acc bytes.Buffer
+	for _, e := range decodeEntries(b) {
+		cur, err := to.in.Nflog.Query(nflogQ(e)...)
+		if err == nil && len(cur) == 1 && !cur[0].Timestamp.AsTime().Before(e.Entry.Timestamp.AsTime()) {
+			continue
+		}
+		if e.ExpiresAt.AsTime().Before(time.Now()) {
+			continue
+		}
+		protodelim.MarshalTo(&acc, e)
+	}
+	if err := to.in.Nflog.Merge(b); err != nil {
+		return
+	}
+	if acc.Len() > 0 {
+		m.noteEntries(to, acc.Bytes())
+	}
+}
+
+// pushPull is memberlist's periodic full-state exchange over the reliable channel: every
+// interval each instance exchanges its whole notification log with one random peer, both ways.
+func (m *mesh) pushPull(interval time.Duration, stop <-chan struct{}) {
+	for {
+		select {
+		case <-stop:
+			return
+		case <-time.After(interval):
+		}
+		for _, name := range m.names {
+			from := m.nodes[name]
 			m.mu.Lock()
-			ok := to.up && from.up && m.part[to.name] == m.part[from.name]
+			to := m.nodes[m.names[m.rng.Intn(len(m.names))]]
+			ok := from.up && to.up && to != from && m.part[to.name] == m.part[from.name]
 			m.mu.Unlock()
 			if !ok {
-				return
+				continue
 			}
-			// accepted entries = those newer than what the receiver holds
-			var acc bytes.Buffer
-			for _, e := range decodeEntries(b) {
-				cur, err := to.in.Nflog.Query(nflogQ(e)...)
-				if err == nil && len(cur) == 1 && !cur[0].Timestamp.AsTime().Before(e.Entry.Timestamp.AsTime()) {
-					continue
-				}
-				if e.ExpiresAt.AsTime().Before(time.Now()) {
-					continue
-				}
-				protodelim.MarshalTo(&acc, e)
+			if b, err := from.in.Nflog.MarshalBinary(); err == nil && len(b) > 0 {
+				m.deliver(from, to, b, 50*time.Millisecond)
 			}
-			if err := to.in.Nflog.Merge(b); err != nil {
-				return
+			if b, err := to.in.Nflog.MarshalBinary(); err == nil && len(b) > 0 {
+				m.deliver(to, from, b, 50*time.Millisecond)
 			}
-			if acc.Len() > 0 {
-				m.noteEntries(to, acc.Bytes())
-			}
-		}
-		go deliver(d)
-		if dup {
-			go deliver(d + 3*time.Second)
 		}
 	}
 }
@@ -317,6 +347,8 @@ func TestCluster(t *testing.T) {
 			}
 			synctest.Wait()
 			horizon := 3*m.cfg.T.ri + 2*time.Minute
+			ppStop := make(chan struct{})
+			go m.pushPull(time.Duration(40+rng.Intn(40))*time.Second, ppStop)
 			firing := map[string]bool{}
 			post := func(a string, resolve bool) {
 				now := time.Now()
@@ -436,6 +468,7 @@ func TestCluster(t *testing.T) {
 				time.Sleep(d)
 			}
 			synctest.Wait()
+			close(ppStop)
 			for _, name := range m.names {
 				m.finish(m.nodes[name])
 			}
